@@ -106,6 +106,7 @@ func runC07(p *core.Program, r *core.Report) {
 	c07R4(p, r, pl)
 	c07R5(p, r)
 	c07R6(p, r, pl)
+	c07R7(p, r, pl)
 }
 
 var filenameFormat = regexp.MustCompile(`^%s\.%s\.go$`)
